@@ -591,11 +591,18 @@ def r5(ctx):
             if arms and arms["some"] and arms["none"]:
                 break
         ok = bool(arms and arms["some"] and arms["none"])
+        if not ok and looks:
+            # combinator form: `self.multi_matched.get(id).map_or(true, |nodes| …)` — the miss arm is the combinator's default
+            comb = [c for c in mmi.calls if c.name in ("map_or", "is_none_or", "map_or_else", "map", "and_then", "is_some_and", "filter", "unwrap_or", "unwrap_or_else") and c.args and
+                    any(o.kind == "call" and o.ref in looks for o in deep_roots(prog, mmi, c.args[0], TRANSPARENT - {"get"}))]
+            if comb:
+                ok = True
+                arms = None
         ctx.ob("R5", "match_multi_var/unbound means key absent", ok,
                "the existing binding is looked up in multi_matched and the comparison is skipped only on the lookup's miss arm" if ok else
                "match_multi_var does not branch on a key lookup in multi_matched (lookups found: %s): 'never bound' cannot be told from 'bound to zero nodes', "
                "so after `$$$A` matched nothing a second `$$$A` accepts anything" % [c.name for c in looks], where=mm.loc())
-        if ok:
+        if ok and arms:
             nexts = {"bound": [], "cand": []}
             for c in mmi.calls:
                 if c.name != "next" or not c.args or c.bb not in mmi.live_blocks:
